@@ -399,3 +399,49 @@ Theorem C11_param_prefix_clone_count_refuted :
                ParamDistinct.nclones_with ParamDistinct.ecmp_prefix refs = Some 1%nat.
 Proof. exact ParamDistinctProofs.prefix_clone_count_refuted. Qed.
 Print Assumptions C11_param_prefix_clone_count_refuted.
+
+(* ---- wave 5: references across modules (coq/Fix/Resolve.v; seeded C11-9) ---- *)
+From A1 Require Fix.Resolve Fix.ResolveProofs.
+
+Theorem C11_resolve_iff : forall ms at_ s,
+  Resolve.Resolves ms at_ s <-> exists fuel, Resolve.resolve ms fuel at_ s = true.
+Proof. exact ResolveProofs.resolve_iff. Qed.
+Print Assumptions C11_resolve_iff.
+
+Theorem C11_status_fatal_iff_unresolved : forall ms fuel at_ s,
+  Resolve.deref_status (Resolve.lookup ms fuel at_ s) = (-1)%Z <-> Resolve.resolve ms fuel at_ s = false.
+Proof. exact ResolveProofs.status_fatal_iff_unresolved. Qed.
+Print Assumptions C11_status_fatal_iff_unresolved.
+
+Theorem C11_accepted_only_if_resolves : forall ms fuel at_ s,
+  Resolve.exit_code (Resolve.deref_status (Resolve.lookup ms fuel at_ s)) = 0%Z -> Resolve.Resolves ms at_ s.
+Proof. exact ResolveProofs.accepted_only_if_resolves. Qed.
+Print Assumptions C11_accepted_only_if_resolves.
+
+Theorem C11_fatal_line_implies_failure : forall r,
+  Resolve.fatal_printed r = true -> Resolve.exit_code (Resolve.deref_status r) <> 0%Z.
+Proof. exact ResolveProofs.fatal_line_implies_failure. Qed.
+Print Assumptions C11_fatal_line_implies_failure.
+
+Theorem C11_import_from_absent_module_fatal : forall ms fuel at_ s m n,
+  Resolve.find_mod ms at_ = Some m -> Resolve.mem s (Resolve.rdefs m) = false ->
+  Resolve.imp_from (Resolve.rimports m) s = Some n -> Resolve.find_mod ms n = None ->
+  Resolve.lookup ms (S fuel) at_ s = Resolve.LBroken /\
+  Resolve.exit_code (Resolve.deref_status (Resolve.lookup ms (S fuel) at_ s)) = 65%Z.
+Proof. exact ResolveProofs.import_from_absent_module_fatal. Qed.
+Print Assumptions C11_import_from_absent_module_fatal.
+
+Theorem C11_import_not_exported_fatal : forall ms fuel at_ s m n t,
+  Resolve.find_mod ms at_ = Some m -> Resolve.mem s (Resolve.rdefs m) = false ->
+  Resolve.imp_from (Resolve.rimports m) s = Some n -> Resolve.find_mod ms n = Some t ->
+  Resolve.exported t s = false ->
+  Resolve.lookup ms (S fuel) at_ s = Resolve.LBroken /\
+  Resolve.exit_code (Resolve.deref_status (Resolve.lookup ms (S fuel) at_ s)) = 65%Z.
+Proof. exact ResolveProofs.import_not_exported_fatal. Qed.
+Print Assumptions C11_import_not_exported_fatal.
+
+Theorem C11_dedup_status_refuted : exists ms fuel at_ s,
+  Resolve.fatal_printed (Resolve.lookup ms fuel at_ s) = true /\ ~ Resolve.Resolves ms at_ s /\
+  Resolve.exit_code (Resolve.deref_status_dedup (Resolve.lookup ms fuel at_ s)) = 0%Z.
+Proof. exact ResolveProofs.dedup_status_refuted. Qed.
+Print Assumptions C11_dedup_status_refuted.
